@@ -79,6 +79,8 @@ func ledgerStrata() []stratum {
 		}), 3},
 		{"vars", with(func(c *gen.LCfg) {
 			c.PVarAcct, c.PVarAmt, c.PInfix, c.PPortionVar, c.POriginVar = 70, 60, 35, 50, 15
+			// asset names of every shape the grammar allows, mostly given through variables
+			c.Assets = []string{"USD", "EUR/2", "COIN", "COIN2", "X1/12", "B2B"}
 		}), 2},
 		{"deep", with(func(c *gen.LCfg) {
 			c.Depth, c.Fanout, c.MaxStmts = 4, 4, 6
@@ -118,10 +120,18 @@ func ledgerStrata() []stratum {
 			c.PLongSrc, c.PFunded, c.PRepeat = 100, 96, 4
 			c.Depth, c.Fanout, c.MinStmts, c.MaxStmts, c.PSave, c.PMetaStmt, c.PSendAll, c.PWorld = 1, 170, 1, 3, 5, 0, 5, 2
 		}), 1},
+		{"ladder", with(func(c *gen.LCfg) {
+			// list lengths next to powers of two, up to 1025 sources / 513 destination clauses
+			c.Accounts = manyAccountsL(1100)
+			c.Assets = []string{"USD"}
+			c.Ladder = true
+			c.PLongSrc, c.PLongDst, c.PFunded, c.PRepeat = 70, 30, 97, 1
+			c.Depth, c.Fanout, c.MinStmts, c.MaxStmts, c.PSave, c.PMetaStmt, c.PSendAll, c.PWorld, c.PVarAcct, c.PVarAmt = 1, 1100, 1, 2, 5, 0, 10, 2, 1, 5
+		}), 1},
 		{"concat", with(func(c *gen.LCfg) {
 			// account and asset names whose concatenations coincide: userA + USD == user + AUSD
-			c.Accounts = []string{"user", "userA", "a", "aB", "ab", "abT"}
-			c.Assets = []string{"USD", "AUSD", "BTC", "TC", "C"}
+			c.Accounts = []string{"user", "userA", "a", "aB", "ab", "abT", "a:b"}
+			c.Assets = []string{"USD", "AUSD", "BTC", "TC", "C", "b:USD"} // the last one only exists as a variable's value
 			c.MultiAsset = true
 			c.MinStmts, c.MaxStmts, c.Depth, c.PSrcSeq, c.PWorld, c.PAbsent, c.PFunded = 2, 5, 1, 45, 4, 3, 60
 		}), 1},
